@@ -321,6 +321,31 @@ def run_tie(prop, spec, tier, seed):
                                             replay={"component": "crouter", "config": small.line.split()[1], "schedule": small.choices(),
                                                     "events": small.events, "status": small.status}))
     res.extra["monitor_violations"] = nviol
+    # free-running leg (real threads, real memory): an observer must never be invoked after its unsubscribe() returned,
+    # and no delivery may overlap a mutation — what the controlled scheduler (one thread at a time) cannot exhibit
+    sbin, sout = lib.build_harness("crouter_stress", ["harness/crouter/crouter_stress.cpp"], repo_sources=REPO_SRC,
+                                   flags=["-std=c++20", "-O2", "-g"])
+    if sbin is None:
+        res.failures.append(Failure("infra", "crouter stress program does not compile against the working tree", replay={"compiler": (sout or "")[-3000:]}))
+    else:
+        import subprocess
+        nruns, ms = (3, 1200) if tier == "quick" else (12, 3000)
+        stress = []
+        for k in range(nruns):
+            sd = (seed * 7919 + k) % 100000
+            try:
+                p = subprocess.run([sbin, str(sd), str(ms)], capture_output=True, text=True, timeout=120)
+                rc, out = p.returncode, (p.stdout + p.stderr).strip()
+            except subprocess.TimeoutExpired:
+                rc, out = -1, "timeout (operations blocked forever)"
+            stress.append({"seed": sd, "rc": rc, "out": out[-200:]})
+            if rc != 0:
+                res.failures.append(Failure("violation", "ConcurrentSubjectRouter, free-running stress (5 subscribe/unsubscribe threads + 2 notifiers, %d ms, seed %d): %s"
+                                            % (ms, sd, out.split("\n")[-1][:200]),
+                                            signature="crouter_stress",
+                                            replay={"component": "crouter", "program": "harness/crouter/crouter_stress.cpp", "args": [sd, ms], "output": out[-1500:]}))
+                break
+        res.extra["stress_runs"] = stress
     mm = model_check(executed, kinds)
     nmm = 0
     for r, bad in zip(executed, mm):
